@@ -41,6 +41,8 @@ func inj(tag string, q byte) scen.Step {
 func handle(h int) scen.Step { return scen.Step{Op: "handle", H: h} }
 
 var workloads = map[string]workload{
+	// established subscriptions, then a cut: with a session-less broker the next connection re-subscribes
+	"resub": {Steps: []scen.Step{subw(ss("u/a", 1)), subw(ss("u/b", 2)), pubw(1, "x"), op("cut"), pub(1, "y"), pub(2, "z")}},
 	// QoS 2 messages accepted before the first connection exists (and while its establishment fails)
 	"preq2": {Pre: []scen.Step{pub(2, "a"), pub(1, "b"), pub(2, "c")}, Steps: []scen.Step{pub(2, "d")}},
 	// requests in flight while a hand-written loop switches clients make-before-break
@@ -799,6 +801,7 @@ func fuzzScenario(rng *rand.Rand) scen.Scenario {
 	sc.SlowReturn = []int{0, 0, 2}[rng.Intn(3)]
 	sc.Client = []string{"reconnect", "reconnect", "reconnect", "retry", "retry-retryfirst", "retry-chaotic"}[rng.Intn(6)]
 	sc.SlowActive = rng.Intn(8) == 0
+	sc.OnErrorPublishes = rng.Intn(6) == 0
 	sc.CloseStyle = []string{"pipe", "net", ""}[rng.Intn(3)]
 	sc.CloseLinger = []int{0, 0, 0, 2}[rng.Intn(4)]
 	// fault plan
